@@ -34,14 +34,22 @@ NAME_POOL = ["unit", "v", "ratio", "label", "flag", "gain", "tags", "pts", "leve
 
 # where the binder stands
 COMP_SITES = ["setup", "setup_if", "setup_else", "setup_for", "setup_while", "setup_try", "fn_global", "fn_param", "fn_branch",
-              "nested", "nested_same", "twice", "range_self", "loop", "loop_if", "loop_for", "loop_try", "copy_of_comp"]
+              "nested", "nested_same", "twice", "range_self", "loop", "loop_if", "loop_for", "loop_try", "copy_of_comp",
+              "fn_return", "len_arg", "call_arg", "reassign"]
 OTHER_BINDERS = ["fn_shadow_param", "fn_shadow_for"]      # "fn_shadow_local" (a function local of the name of a global) is outside the guard:
                                                           # F-C06-fn-local-shadows-global, shape fn-local-shadows-global of c06_gen.shapes_of
 ALL_SITES = COMP_SITES + OTHER_BINDERS
 
-# element expressions over the comprehension variable {v}; the label of the list they make
+# element expressions over the comprehension variable {v}; the label of the list they make.  hf / hu / hys / dbl are helper
+# globals of every script (a float, a String, a list of floats, an annotated function)
 ELTS = [("{v} * 2", "int"), ("{v} + 1", "int"), ("{v}", "int"), ("{v} * {v}", "int"), ("({v} + 1) * 3", "int"),
-        ("{v} * 0.5", "float"), ("{v} / 2.0", "float"), ("{v} + 0.25", "float")]
+        ("{v} * 0.5", "float"), ("{v} / 2.0", "float"), ("{v} + 0.25", "float"),
+        ("str({v})", "String"), ('"a"', "String"), ('f"n{{{v}}}"', "String"), ("{v} if {v} > 1 else 0", "int"), ("{v} > 1", "bool"),
+        ("{v} * hf", "float"), ("str({v}) + hu", "String"), ("hys[{v}]", "float"), ("dbl({v})", "int")]
+DEFAULT_OF = {"int": "0", "float": "0.5", "String": '""', "bool": "False"}
+# range(...) forms over the size {n} (1..5); sel is a run-time int (3)
+RFORMS = ["range({n})", "range(1, {n} + 1)", "range(0, {n} + 2, 2)", "range({n}, 0, -1)", "range(sel)", "range(sel, 6)", "range({n})", "range({n})"]
+HELPERS = ["hf = 1.5", "hu = \"cm\"", "hys = [1.5, 2.5, 3.5, 4.5, 5.5, 6.5, 7.5]", "def dbl(q: int):", "    return q * 2"]
 
 
 def _ind(lines, n=1):
@@ -60,13 +68,13 @@ def scenario(rng, ty=None, site=None):
     if site in ("fn_param", "fn_shadow_param") and not TYPES[ty]["scalar"]:
         ty = rng.choice(["float", "String", "bool", "int"])
     return {"type": ty, "site": site, "lit": rng.choice(TYPES[ty]["lits"]), "elt": rng.randrange(len(ELTS)),
-            "elt2": rng.randrange(len(ELTS)), "n": rng.choice([1, 2, 3, 5]), "before": rng.random() < 0.6,
+            "elt2": rng.randrange(len(ELTS)), "n": rng.choice([1, 2, 3, 5]), "rform": rng.randrange(len(RFORMS)), "before": rng.random() < 0.6,
             "tag": rng.random() < 0.6, "name": rng.choice(NAME_POOL)}
 
 
 def build(scens):
     """-> (script, expect) with expect = {"vars": {name: cpp type}, "fns": {name: cpp return type}}"""
-    pre, fns_late, loop = ["sel = 3"], [], []
+    pre, fns_late, loop = ["sel = 3"] + HELPERS, [], []
     ev, ef = {"sel": "int"}, {}
     for k, sc in enumerate(scens):
         T, site = sc["type"], sc["site"]
@@ -76,7 +84,9 @@ def build(scens):
         mk, tag = f"mk{k}", f"tag{k}"
         elt, lab = ELTS[sc["elt"]]
         elt2, lab2 = ELTS[sc["elt2"]]
-        comp = f"{x} = [{elt.format(v=o)} for {o} in range({sc['n']})]"
+        rform = RFORMS[sc.get("rform", 0)].format(n=sc["n"])
+        cexpr = f"[{elt.format(v=o)} for {o} in {rform}]"
+        comp = f"{x} = {cexpr}"
         xcpp = f"__redu_list<{lab}>"
         pre.append(f"{o} = {sc['lit']}")
         ev[o] = cpp
@@ -100,14 +110,13 @@ def build(scens):
             pre += [f"def {mk}():"] + _ind([comp, f"return {x}[0]"]) + [f"{r} = {mk}()", f"mon.write({r})"]
             ef[mk] = lab; ev[r] = lab
         elif site == "fn_branch":
-            pre += [f"def {mk}(q: int):"] + _ind(["if q > 1:"] + _ind([comp, f"return {x}[0]"]) + ["return 0"]) + [f"{r} = {mk}(sel)", f"mon.write({r})"]
-            if lab == "int":
-                ef[mk] = "int"; ev[r] = "int"
+            pre += [f"def {mk}(q: int):"] + _ind(["if q > 1:"] + _ind([comp, f"return {x}[0]"]) + [f"return {DEFAULT_OF[lab]}"]) + [f"{r} = {mk}(sel)", f"mon.write({r})"]
+            ef[mk] = lab; ev[r] = lab
         elif site == "fn_param":
             pre += [f"def {mk}({o}: {TYPES[T]['ann']}):"] + _ind([comp, f"{c} = {o}", f"return {c}"]) + [f"{r} = {mk}({o})", _show(r, T)]
             ev[c] = cpp; ef[mk] = cpp; ev[r] = cpp
         elif site == "nested":
-            pre.append(f"{x} = [[{elt.format(v=o)} for {o} in range(2)] for j{k} in range({sc['n']})]"); ev[x] = f"__redu_list<__redu_list<{lab}>>"
+            pre.append(f"{x} = [[{elt.format(v=o)} for {o} in range(2)] for jj{k} in range({sc['n']})]"); ev[x] = f"__redu_list<__redu_list<{lab}>>"
         elif site == "nested_same":
             pre.append(f"{x} = [[{elt.format(v=o)} for {o} in range(2)] for {o} in range({sc['n']})]"); ev[x] = f"__redu_list<__redu_list<{lab}>>"
         elif site == "twice":
@@ -117,6 +126,15 @@ def build(scens):
             pre.append(f"{x} = [{elt.format(v=o)} for {o} in range({o})]"); ev[x] = xcpp
         elif site == "copy_of_comp":            # the element expression mentions a SECOND outer variable that keeps its type inside
             pre += [f"f{k} = 1.5", f"{x} = [{o} * f{k} for {o} in range({sc['n']})]"]; ev[f"f{k}"] = "float"; ev[x] = "__redu_list<float>"
+        elif site == "fn_return":              # the comprehension is the returned expression
+            pre += [f"def {mk}():", f"    return {cexpr}", f"{r} = {mk}()", f"mon.write({r}[0])"]
+            ef[mk] = xcpp; ev[r] = xcpp
+        elif site == "len_arg":                # ... the argument of len()
+            pre += [f"{r} = len({cexpr})", f"mon.write({r})"]; ev[r] = "int"
+        elif site == "call_arg":               # ... the argument of a helper with an un-annotated parameter
+            pre += [f"def tot{k}(q):", "    return len(q)", f"{r} = tot{k}({cexpr})", f"mon.write({r})"]; ev[r] = "int"; ef[f"tot{k}"] = "int"
+        elif site == "reassign":               # assigned twice: declared once
+            pre += [comp, f"mon.write({x}[0])", f"{x} = [{elt.format(v=o)} for {o} in range(4)]"]; ev[x] = xcpp
         elif site == "fn_shadow_param":
             pre += [f"def {mk}({o}: int):"] + _ind([f"{c} = {o} + 1", f"return {c}"]) + [f"{r} = {mk}(sel)", f"mon.write({r})"]
             ev[c] = "int"; ef[mk] = "int"; ev[r] = "int"
@@ -187,7 +205,9 @@ def exhaustive_scenarios(rng, per_site_types):
         tys = TYPE_NAMES if per_site_types is None else [TYPE_NAMES[(j + i * 3) % len(TYPE_NAMES)] for i in range(per_site_types)]
         j += 1
         for ty in tys:
-            out.append(scenario(rng, ty, site))
+            sc = scenario(rng, ty, site)
+            sc["elt"], sc["rform"] = len(out) % len(ELTS), (len(out) * 3) % len(RFORMS)     # every element form / range form in rotation
+            out.append(sc)
     return out
 
 
